@@ -66,6 +66,7 @@ EXN = {"ValueError", "IndexError", "HPACKDecodingError", "InvalidTableIndex",
 BUILTIN_BASES = {"BaseException": [], "Exception": ["BaseException"], "LookupError": ["Exception"],
                  "IndexError": ["LookupError"], "ValueError": ["Exception"], "UnicodeError": ["ValueError"],
                  "UnicodeDecodeError": ["UnicodeError"], "TypeError": ["Exception"]}
+REBOUND_LOG = set()     # modules in which `log` is not (only) the module's logger: their log calls are not dropped
 EXC_BASES = {}          # class -> bases, from exceptions.py of the tree under translation (set by main)
 HANDLER_LEAVES = set()  # the handler types that were translated as `catch` (exact constructor): Bridge/B_exn.v
 #                         re-proves, on the regenerated hierarchy, that each catches exactly its own constructor
@@ -1173,7 +1174,10 @@ class Tr:
                 if f.id in ("bytearray", "bytes") and len(n.args) == 0:
                     return [], "[]", "bytes"
                 if f.id in ("bytearray", "bytes") and len(n.args) == 1:
-                    b, t, ty = self.E(n.args[0], env)
+                    a0 = n.args[0]
+                    if isinstance(a0, ast.Tuple) and a0.elts and not any(isinstance(e, ast.Starred) for e in a0.elts):
+                        a0 = ast.copy_location(ast.List(elts=a0.elts, ctx=ast.Load()), a0)   # bytearray((a, b)) = bytearray([a, b])
+                    b, t, ty = self.E(a0, env)
                     if ty == "bytes":
                         return b, t, "bytes"
                     if ty == ("list", "int"):
@@ -1327,10 +1331,21 @@ class Tr:
             bs = []
             for v in n.values:
                 if isinstance(v, ast.FormattedValue):
+                    # a format specification can raise (`{name!r:d}`: Unknown format code) and can contain further
+                    # expressions that are evaluated (`{x:{f()}}`): none is accepted here (f"{n:x}" was taken above)
+                    if v.format_spec is not None:
+                        bad(n, "format specification in an f-string")
+                    if v.conversion not in (-1, ord("r"), ord("s"), ord("a")):
+                        bad(n, "conversion in an f-string")
                     b, t, ty = self.E(v.value, env)
                     bs += b
                     if ty == "int":
                         bs.append((fn.tmp(), f"py_format_d ({t})"))
+                    elif not (ty in ("bytes", "str", "bool", "hex", "none") or (isinstance(ty, tuple) and ty[0] in ("obj", "list", "tuple", "opt"))
+                              or ty == "header" or is_view(ty)):
+                        bad(n, f"f-string field of type {ty}")
+                elif not isinstance(v, ast.Constant):
+                    bad(n, "f-string part")
             return bs, "tt", "str"
         bad(n, "expression")
 
@@ -1447,6 +1462,8 @@ class Tr:
             if isinstance(v, ast.Call) and isinstance(v.func, ast.Attribute):
                 f = v.func
                 if isinstance(f.value, ast.Name) and f.value.id == "log":
+                    if REBOUND_LOG:
+                        bad(s, "a log call, but `log` is not only the module's logger (modules: %s)" % sorted(REBOUND_LOG))
                     return cont(env)
                 # self.<deque>.clear() / appendleft(x)
                 if isinstance(f.value, ast.Attribute) and isinstance(f.value.value, ast.Name) \
@@ -1890,6 +1907,11 @@ class Tr:
             vars_ = [v for v in self.assigned(s.body) if v in env or v == "self"]
             if isinstance(s, ast.For):
                 tnames = {x.id for x in ast.walk(s.target) if isinstance(x, ast.Name)}
+                for t_ in sorted(tnames):
+                    # after the loop a target holds the LAST element (or its old value when nothing was iterated): the
+                    # translation binds it inside the body only, so it must not be a variable that exists outside
+                    if t_ in env or any(isinstance(x, ast.Name) and x.id == t_ for r in rest for x in ast.walk(r)):
+                        bad(s, f"loop target {t_} is also a variable outside the loop")
                 vars_ = [v for v in vars_ if v not in tnames]
             if self.rw() and "self" not in vars_:
                 vars_.append("self")
@@ -2129,26 +2151,33 @@ class Tr:
         for p in ast.walk(fn.fd):
             for c in ast.iter_child_nodes(p):
                 parents[c] = p
+        PURE = {"bytes", "bytearray", "len", "list", "tuple", "sorted", "enumerate", "bool", "sum", "min", "max", "any", "all"}
         for x in ast.walk(fn.fd):
             if not (isinstance(x, ast.Name) and x.id == nm and isinstance(x.ctx, ast.Load)):
                 continue
             p = parents.get(x)
-            # the value flows on through displays and conditional expressions
-            top = x
-            while isinstance(p, (ast.Tuple, ast.List, ast.Set, ast.Dict, ast.IfExp, ast.Starred, ast.BoolOp)) \
-                    and not (isinstance(p, ast.IfExp) and p.test is top):
-                top, p = p, parents.get(p)
-            if isinstance(p, (ast.Assign, ast.AnnAssign, ast.NamedExpr, ast.AugAssign)) and getattr(p, "value", None) is top:
-                bad(node, f"{nm} is changed in place and also given a second name or stored (line {x.lineno})")
-            if isinstance(p, (ast.Yield, ast.YieldFrom)):
-                bad(node, f"{nm} is changed in place and also yielded")
-            if isinstance(p, ast.keyword):
-                bad(node, f"{nm} is changed in place and also passed as a keyword argument")
-            if isinstance(p, ast.Call) and top in p.args:
-                f = p.func
-                if isinstance(f, ast.Attribute) and not (isinstance(f.value, ast.Constant) and f.attr == "join"):
-                    # a method of another object may keep it (ys.append(nm), self.table.add(nm, ...)); b"".join(nm) does not
-                    bad(node, f"{nm} is changed in place and also handed to the method {f.attr} (line {x.lineno})")
+            ok = False
+            if isinstance(p, ast.Attribute) and p.value is x and isinstance(parents.get(p), ast.Call) \
+                    and parents[p].func is p:
+                ok = True                      # nm.method(...)
+            elif isinstance(p, ast.Call) and x in p.args and not p.keywords and (
+                    (isinstance(p.func, ast.Name) and p.func.id in PURE)
+                    or (isinstance(p.func, ast.Attribute) and p.func.attr == "join" and isinstance(p.func.value, ast.Constant))):
+                ok = True                      # bytes(nm), len(nm), b"".join(nm): read, not kept
+            elif isinstance(p, ast.Subscript) and p.value is x:
+                ok = True                      # nm[i], nm[a:b] (a slice of a list / bytearray is a copy), nm[0] |= m
+            elif isinstance(p, ast.Return) and p.value is x:
+                ok = True                      # the last use
+            elif isinstance(p, (ast.For, ast.comprehension)) and p.iter is x:
+                ok = True
+            elif isinstance(p, (ast.If, ast.While, ast.IfExp)) and p.test is x:
+                ok = True
+            elif isinstance(p, ast.UnaryOp) and isinstance(p.op, ast.Not):
+                ok = True
+            elif isinstance(p, (ast.Compare, ast.BinOp, ast.BoolOp)) and not (isinstance(p, ast.BoolOp)):
+                ok = True                      # a comparison or `nm + other` (a new object)
+            if not ok:
+                bad(node, f"{nm} is changed in place and also used where it could get a second reference (line {x.lineno})")
             q = x
             while q in parents:
                 q = parents[q]
@@ -2440,6 +2469,17 @@ class Desugar(ast.NodeTransformer):
                                                 right=ast.Constant(value=k.value))], ctx=ast.Load())
         return n
 
+    def visit_Compare(self, n):
+        """`a OP1 b OP2 c` with b a plain name (evaluated once either way) is `a OP1 b and b OP2 c`"""
+        self.generic_visit(n)
+        if len(n.ops) == 2 and isinstance(n.comparators[0], ast.Name) \
+                and all(isinstance(o, (ast.Lt, ast.LtE, ast.Gt, ast.GtE, ast.Eq, ast.NotEq)) for o in n.ops):
+            mid = n.comparators[0]
+            return ast.BoolOp(op=ast.And(), values=[
+                ast.Compare(left=n.left, ops=[n.ops[0]], comparators=[ast.Name(id=mid.id, ctx=ast.Load())]),
+                ast.Compare(left=ast.Name(id=mid.id, ctx=ast.Load()), ops=[n.ops[1]], comparators=[n.comparators[1]])])
+        return n
+
     def visit_If(self, n):
         self.generic_visit(n)
         r = self._leading_walrus(n.test)
@@ -2476,12 +2516,13 @@ class Desugar(ast.NodeTransformer):
             return False
         if own_jump(n.body):
             return n
-        used = {x.id for x in ast.walk(n) if isinstance(x, ast.Name)}
+        used = self.all_names              # every identifier of the module (names, parameters, attributes)
         temps = []
         for i in range(len(n.iter.elts)):
             t = "%s_%d_" % (n.target.id, i + 1)
-            if t in used:
-                return n
+            while t in used:
+                t += "_"
+            used.add(t)
             temps.append(t)
         out = [ast.Assign(targets=[ast.Name(id=t, ctx=ast.Store())], value=e, lineno=n.lineno)
                for t, e in zip(temps, n.iter.elts)]
@@ -2503,7 +2544,11 @@ class Desugar(ast.NodeTransformer):
 
 
 def desugar(tree):
-    tree = Desugar().visit(tree)
+    d = Desugar()
+    d.all_names = ({x.id for x in ast.walk(tree) if isinstance(x, ast.Name)} | {x.arg for x in ast.walk(tree) if isinstance(x, ast.arg)}
+                   | {x.attr for x in ast.walk(tree) if isinstance(x, ast.Attribute)}
+                   | {x.name for x in ast.walk(tree) if isinstance(x, (ast.FunctionDef, ast.ClassDef))})
+    tree = d.visit(tree)
     ast.fix_missing_locations(tree)
     return tree
 
@@ -2835,11 +2880,27 @@ def main():
     # ---------------- GExn.v: the class headers of exceptions.py as data
     EXC_BASES.clear()
     HANDLER_LEAVES.clear()
+    REBOUND_LOG.clear()
     try:
         EXC_BASES.update(exception_bases(ast.parse(open(os.path.join(src, "exceptions.py")).read())))
         status["exceptions.<class hierarchy>"] = "translated"
     except (Unsupported, OSError, SyntaxError) as e:
         status["exceptions.<class hierarchy>"] = f"unsupported: {e}"
+    # (`log.<x>(...)` statements are dropped by name: `log` must be nothing but the module's logger)
+    for m_, t_ in trees.items():
+        for x in ast.walk(t_):
+            if (isinstance(x, ast.Name) and x.id == "log" and not isinstance(x.ctx, ast.Load)) \
+                    or (isinstance(x, ast.arg) and x.arg == "log") \
+                    or (isinstance(x, ast.alias) and (x.asname or x.name) == "log") \
+                    or (isinstance(x, ast.ExceptHandler) and x.name == "log") \
+                    or (isinstance(x, (ast.FunctionDef, ast.ClassDef)) and x.name == "log"):
+                line = getattr(x, "lineno", 0)
+                top = [n for n in t_.body if isinstance(n, ast.Assign) and len(n.targets) == 1 and n.targets[0] is x]
+                if top and ast.unparse(top[0].value) == "logging.getLogger(__name__)":
+                    continue
+                print(f"py2coq: {m_}.py line {line}: `log` is bound to something other than the module's logger", file=sys.stderr)
+                status[f"{m_}.<log>"] = f"unsupported: `log` rebound at line {line}"
+                REBOUND_LOG.add(m_)
     # (an exception class name rebound anywhere in the translated modules would change what `raise C` means)
     for m_, t_ in trees.items():
         for x in ast.walk(t_):
